@@ -82,7 +82,9 @@ def typed_cases(assignments):
             if f["other"] or f["skip"] or f["key"] is None:
                 continue
             body = re.sub(r"/%s (\[[^\]]*\]|<<.*?>>|\([^)]*\)|\S+( 0 R)?)" % re.escape(f["key"]), "", base[2:-2], count=1).strip()
-            for label, shape in (("entry", "%d 0 R"), ("element", "[%d 0 R]"), ("value", "<< /E %d 0 R >>")):
+            # (the last shape names the object with another generation number than the one it is reached by: the reader
+            # finds objects by number, so the reference still leads back to the same object)
+            for label, shape in (("entry", "%d 0 R"), ("element", "[%d 0 R]"), ("value", "<< /E %d 0 R >>"), ("entry-gen1", "%d 1 R")):
                 def make(t, body=body, key=f["key"], shape=shape, base=base):
                     return base if t is None else "<< %s /%s %s >>" % (body, key, shape % t)
                 for a in assigns:
